@@ -190,7 +190,7 @@ func properties() map[string]*PropertyDef {
 		Funcs:      cacheFuncs,
 		Sequential: true,
 		NeedsClauses: map[string][]string{
-			"cache.(*cache).Set":   {"too_large_refused", "full_without_lru_refused", "stored", "without_lru_reports_replacement", "monitor_invariant/count_bound", "nil/"},
+			"cache.(*cache).Set":   {"too_large_refused", "full_without_lru_refused", "stored", "without_lru_reports_replacement", "size_accounting_new_key", "size_accounting_replaced_key", "callback/requires/evicted_entry_gone", "monitor_invariant/count_bound", "nil/", "frame/"},
 			"cache.(*cache).Get":   {"hit_value", "miss_nil", "entries_unchanged"},
 			"cache.(*cache).Del":   {"removed", "others_kept", "size_accounting", "nil/"},
 			"cache.(*cache).Clear": {"emptied"},
